@@ -66,6 +66,11 @@ KINDS = {
     "zip-pyg-member": "/arc.zip/bin/run.pyg",
     "zip2-member": "/arc2.zip/nope/x",
     "zip2-listing": "/arc2.zip",
+    "zip-gz-member": "/arc.zip/d/z.txt.gz",
+    "zip3-listing": "/arc3.zip", "zip3-ok": "/arc3.zip/ok.txt", "zip3-enc": "/arc3.zip/enc.txt",
+    "zip3-d64": "/arc3.zip/d64.txt",
+    "maildir-new": "/md/new", "maildir-cur": "/md/cur",
+    "url-named-file": "/docs/URL:",
     "script": "/script.sh",
     "script-big": "/bigscript.sh",
     "gz-big": "/bigz.txt.gz",
@@ -105,6 +110,35 @@ class PYGMain(PYGBase):
 '''
 
 
+def _odd_zip():
+    import io
+    import struct
+    import zipfile
+    buf = io.BytesIO()
+    with zipfile.ZipFile(buf, "w") as z:
+        for name, text in (("ok.txt", b"fine\n"), ("enc.txt", b"pretend this is encrypted\n"),
+                           ("d64.txt", b"pretend this is deflate64\n"), ("page.html", b"<title>x</title>")):
+            z.writestr(zipfile.ZipInfo(name, date_time=(2001, 9, 1, 12, 0, 0)), text)
+    data = bytearray(buf.getvalue())
+
+    def patch(name, local_off, central_off, value, width):
+        for sig, off in ((b"PK\x03\x04", local_off), (b"PK\x01\x02", central_off)):
+            i = 0
+            while True:
+                i = data.find(sig, i)
+                if i < 0:
+                    break
+                nlen_off = 26 if sig == b"PK\x03\x04" else 28
+                hdr = 30 if sig == b"PK\x03\x04" else 46
+                n = struct.unpack("<H", data[i + nlen_off:i + nlen_off + 2])[0]
+                if bytes(data[i + hdr:i + hdr + n]) == name:
+                    data[i + off:i + off + width] = struct.pack("<H", value)
+                i += 4
+    patch(b"enc.txt", 6, 8, 0x1, 2)       # general purpose flag bit 0: encrypted
+    patch(b"d64.txt", 8, 10, 9, 2)        # compression method 9: Deflate64
+    return bytes(data)
+
+
 def make_spec(bigsize=9000, nmsg=3, ndocs=4):
     import base64
     import gzip
@@ -122,7 +156,12 @@ def make_spec(bigsize=9000, nmsg=3, ndocs=4):
                                                   ["web/a.html", "<html><head><title>Page A</title></head></html>\n"],
                                                   ["web/b.html", "<html><head><title>Page B</title></head></html>\n"],
                                                   ["bin/tool.sh", "#!/bin/sh\necho tool inside the archive\n", 0o755],
-                                                  ["bin/run.pyg", PYG, 0o755]]},
+                                                  ["bin/run.pyg", PYG, 0o755],
+                                                  ["d/z.txt.gz", {"b64": base64.b64encode(gzip.compress(b"compressed inside the archive\n", mtime=0)).decode()}]]},
+        # members that zipfile can list but not open: one flagged as encrypted, one "compressed" with a method
+        # this Python does not implement (Deflate64)
+        {"p": "arc3.zip", "k": "file", "d": {"b64": base64.b64encode(_odd_zip()).decode()}},
+        {"p": "docs/URL:", "k": "file", "d": "a file whose name is the URL prefix\n"},
         {"p": "arc2.zip", "k": "zip", "members": [["nope/x", "in the second archive\n"], ["d/only2.txt", "2\n"],
                                                    ["a.txt", "another a\n"]]},
         {"p": "script.sh", "k": "file", "d": "#!/bin/sh\necho hello from script\necho \"query=$SEARCHREQUEST\"\necho \"selector=$SELECTOR request=$REQUEST args=$*\"\n", "x": True},
@@ -137,7 +176,7 @@ def make_spec(bigsize=9000, nmsg=3, ndocs=4):
          "d": {"b64": base64.b64encode(gzip.compress(b"a long compressed document line 0123456789\n" * 600, mtime=0)).decode()}},
         {"p": "gm", "k": "dir"},
         {"p": "gm/gophermap", "k": "file",
-         "d": "Welcome\n0A file\tfile.txt\n1Docs\t/docs\nhSite\tURL:http://example.org/\n"
+         "d": "Welcome\n0A file\tfile.txt\n1Docs\t/docs\nhSite\tURL:http://example.org/\nhHome page\tURL:\n"
               "i\t\tnull.host\t1\niAn info line in full form\tfake\t(NULL)\t0\n\n0Last\tfile.txt\texample.org\t70\n"},
         {"p": "gm/file.txt", "k": "file", "d": "in gm\n"},
         {"p": "hello.pyg", "k": "file", "d": PYG, "x": True},
